@@ -71,6 +71,16 @@ def acyclic(ctx):
                         tot = num.add(tot, O.string_weight(orules, sk.V, sk.S, x, num, []))
                 ctx.eq("treesum() = sum over the language of the string weights", ts, tot, sig=f"treesum-language:{P['shape']}")
     if P.get("chart", "real") == "real":
+        # a coarse query first (iteration cap) must not influence a later default query on the same object
+        g = make_cfg(ctx, sk, ws)
+        ok, _ = ctx.call("treesum(maxiter=1)", lambda: g.treesum(maxiter=1), sig="treesum:exception")
+        ok, ts2 = ctx.call("treesum() after treesum(maxiter=1)", g.treesum, sig="treesum:exception")
+        if ok:
+            ctx.eq("treesum() after a coarse treesum(maxiter=1) on the same grammar object", ts2, Z.get(sk.S, num.zero), sig=f"treesum-after-coarse:{P['shape']}")
+        ok, ag2 = ctx.call("agenda(tol=0.5) then agenda()", lambda: (g.agenda(tol=0.5), g.agenda())[1], sig="agenda:exception")
+        if ok:
+            for X in nts:
+                ctx.eq(f"agenda()[{X}] after agenda(tol=0.5) on the same object", ag2[X], Z.get(X, num.zero), sig=f"agenda-after-coarse:{P['shape']}")
         g = make_cfg(ctx, sk, ws)
         ok, nb = ctx.call("naive_bottom_up", g.naive_bottom_up, sig="naive_bottom_up:exception")
         if ok:
@@ -110,6 +120,31 @@ def expected_length(ctx):
         for x in itertools.product(sorted(sk.V), repeat=k):
             tot = num.add(tot, num.mul(num.one * k if k else num.zero, O.string_weight(orules, sk.V, sk.S, x, num, [])))
     ctx.eq("expected_length = sum_x |x| G(x)", el, tot, sig=f"expected_length:{P['shape']}")
+
+
+@case("C08", "settings_history", domain="SNum")
+def settings_history(ctx):
+    """Concrete (fixed float weights, recursive grammar): a query with coarse convergence settings must not
+    influence a later default query on the same grammar object.  Not a solver verdict: convergence up to a
+    tolerance is outside the exact symbolic model; this pins the purity of treesum/agenda w.r.t. their settings."""
+    P = ctx.P
+    sk = grammar(P["shape"])
+    ws = [0.05 + 0.04 * ((3 * k) % 5) for k in range(sk.K)]
+    g = make_cfg(ctx, sk, ws)
+    fresh = make_cfg(ctx, sk, ws).treesum()
+    for first in (dict(maxiter=2), dict(tol=1e-1), dict(maxiter=0)):
+        g = make_cfg(ctx, sk, ws)
+        ok, _ = ctx.call(f"treesum({first})", lambda: g.treesum(**first), sig="treesum:exception")
+        ok, v = ctx.call("treesum()", g.treesum, sig="treesum:exception")
+        if ok:
+            ctx.check(f"treesum() after treesum({first}) on the same object equals a fresh treesum()", abs(float(v) - float(fresh)) <= 1e-9,
+                      detail=f"{v} vs {fresh}", sig=f"settings-history:{P['shape']}")
+        g = make_cfg(ctx, sk, ws)
+        ok, _ = ctx.call(f"agenda({first})", lambda: g.agenda(**first), sig="agenda:exception")
+        ok, a = ctx.call("agenda()", g.agenda, sig="agenda:exception")
+        if ok:
+            ctx.check(f"agenda()[S] after agenda({first}) on the same object equals a fresh treesum()", abs(float(a[sk.S]) - float(fresh)) <= 1e-9,
+                      detail=f"{a[sk.S]} vs {fresh}", sig=f"settings-history:{P['shape']}")
 
 
 class _Stop(BaseException):
@@ -214,6 +249,8 @@ def jobs(tier, seed):
         nsym = len({h for h, _ in sk.rules} | {y for _, b in sk.rules for y in b})
         for blk in range(nsym):
             out.append(dict(case="inductive", params=dict(shape=sh, block=blk), budget=dict(max_paths=8000)))
+    for sh in ["G-CAT", "G-LR", "G-PAL"]:
+        out.append(dict(case="settings_history", params=dict(shape=sh)))
     out.append(dict(case="acyclic", params=dict(shape="G-FIN", chart="real", canary=True)))
     out.append(dict(case="inductive", params=dict(shape="G-CAT", block=1, canary=True)))
     seeds = [1 + seed % 1000] if quick else [0, 1 + seed % 1000]
